@@ -49,7 +49,8 @@ pub fn all() -> Vec<Prop> {
                 "workload domain carve-outs of DESIGN.md 3.2 (no object 0, no top-level ObjStm/XRef/Linearized-typed objects, streams built with Stream::new)",
                 "equality is rules R1-R4 of DESIGN.md 3.4",
             ],
-            batches: vec![Batch { name: "roundtrip", scenario: crate::scen_a::c01_roundtrip, quick: 200000, thorough: 5000000, varies: "sink chunking/EINTR x source chunking/EINTR x loader completion order x repeated cycles x parallel/sequential reader" }],
+            batches: vec![Batch { name: "roundtrip", scenario: crate::scen_a::c01_roundtrip, quick: 200000, thorough: 5000000, varies: "sink chunking/EINTR x source chunking/EINTR x loader completion order x repeated cycles x parallel/sequential reader" },
+                Batch { name: "byte-pairs", scenario: crate::scen_a::c01_bytepairs, quick: 3000, thorough: 6000, varies: "(plain sweep, not simulation) all 65536 byte pairs as string / hex string / name / dictionary key content; 256 pairs per run, the distinct count reports how many of the 256 first bytes were covered" }],
         },
         Prop {
             id: "C03",
